@@ -57,7 +57,7 @@ META["C05"] = dict(
 META["C04"] = dict(
     level="proof",
     technique="exception-freedom and termination obligations at every raising primitive of the real Tokenizer and Parser (VCs from the AST: array windows, character codes, token kinds; loop invariants + variants; recursion by contract) discharged by z3/cvc5; exhaustive lexical-atom sequences and mutations as labelled bounded stand-in",
-    level_text="Tokenizer: for every input state, every exit of main_loop either consumed at least one character (variant) or raised UnexpectedCharacter/ValueError; no `x in <str>` with x None, no IndexError/KeyError, every scanning loop terminates. Parser: see level_note. Acceptance => well-formed circuit and re-acceptance of the serialisation are explored by the bounded layer.",
+    level_text="Tokenizer: for every input state, every exit of main_loop either consumed at least one character (variant) or raised UnexpectedCharacter/ValueError; no `x in <str>` with x None, no IndexError/KeyError, every scanning loop terminates. Parser: every method of the recursive descent -- process (tokenise+loop, assembly), migrate, main_loop, connection (both kinds), element, parameters, subcircuit, param, param_limit -- is verified against its own contract assuming the contracts of the methods it calls: only parsing/tokenizing errors and ValueError can escape, the explicit `raise TypeError` sites are unreachable (stack items are opening brackets or nodes; sub-circuits restore the stack), keys handed to Element constructors/setters are the class's keys (no InvalidParameterKey/KeyError), and every call consumes tokens (termination of the mutual recursion). 'Accepted => well-formed circuit that simulates and re-serialises' is explored by the bounded layer.",
     level_note="characters as integer codes, tokens as kind codes; Identifier.__post_init__ and float(text) may raise ValueError (an allowed class) and are otherwise opaque; call stack unbounded (RecursionError is only visible to the bounded layer)",
     explanation="Obligations from Tokenizer.{main_loop, identifier_or_label, number, peek, pop, consume, accept, ignore, push, process} (helpers inlined) and the Parser methods under contracts/parser.py. Bounded: every sequence of <= N lexical atoms, grammar-derived codes with single-character mutations, deep nesting.",
     trusted_base=["string constants of the `string` module", "Token dataclasses construct without error except Identifier.__post_init__"],
